@@ -1,2 +1,2 @@
-import NipyVerif.Model.C17
-def main : IO Unit := NipyVerif.driverLoop NipyVerif.C17.run
+import NipyVerif.Model.C17All
+def main : IO Unit := NipyVerif.driverLoop NipyVerif.C17.runAll
